@@ -193,7 +193,7 @@ pub fn gen_sh(r: &mut Rng, lat: bool, kind: u64) -> Sh {
                Sh::Round(Box::new(inner), if r.below(8) == 0 { 0.0 } else { r.pos_extent(lat) }) }
     }
 }
-fn gen_trimesh(r: &mut Rng, lat: bool) -> Co {
+pub fn gen_trimesh(r: &mut Rng, lat: bool) -> Co {
     let nv = 3 + r.below(10) as usize;
     let vs: Vec<Point<Real>> = (0..nv).map(|_| d2::gen_p(r, lat, 20.0)).collect();
     let nt = 1 + r.below(12) as usize;
@@ -205,7 +205,7 @@ fn gen_trimesh(r: &mut Rng, lat: bool) -> Co {
     }
     Co::TriMesh(vs, is)
 }
-fn gen_polyline(r: &mut Rng, lat: bool) -> Co {
+pub fn gen_polyline(r: &mut Rng, lat: bool) -> Co {
     let nv = 2 + r.below(12) as usize;
     let vs: Vec<Point<Real>> = (0..nv).map(|_| d2::gen_p(r, lat, 20.0)).collect();
     let is: Vec<[u32; 2]> = if r.bool() { (0..nv as u32 - 1).map(|i| [i, i + 1]).collect() }
@@ -216,12 +216,12 @@ fn gen_compound(r: &mut Rng, lat: bool) -> Co {
     let n = 1 + r.below(5) as usize;
     Co::Compound((0..n).map(|_| { let k = *r.pick(&[0u64, 1, 2, 3, 4, 5, 6, 9]); (d2::gen_iso(r, lat, 10.0), gen_sh(r, lat, k)) }).collect())
 }
-fn gen_scale(r: &mut Rng, lat: bool) -> Vector<Real> {
+pub fn gen_scale(r: &mut Rng, lat: bool) -> Vector<Real> {
     let sg = |r: &mut Rng| if r.bool() { -1.0 } else { 1.0 };
     if lat { Vector::new(*r.pick(&[-3.0, -2.0, -1.0, -0.5, 0.5, 1.0, 2.0]), *r.pick(&[-2.0, -1.0, -0.25, 0.5, 1.0, 3.0])) }
     else { Vector::new(r.logu(1e-1, 1e1) * sg(r), r.logu(1e-1, 1e1) * sg(r)) }
 }
-fn gen_heightfield(r: &mut Rng, lat: bool, neg: bool) -> Co {
+pub fn gen_heightfield(r: &mut Rng, lat: bool, neg: bool) -> Co {
     let n = 2 + r.below(8) as usize;
     let hs: Vec<f64> = (0..n).map(|_| if lat { r.lattice(12, 2) } else { r.uniform(-5.0, 5.0) }).collect();
     let mut sc = gen_scale(r, lat);
